@@ -179,17 +179,28 @@ class PhasePredictor(QTable):
 
     def time_at(self, phase, guess=None):
         """Returns timestamp at given phase via root-finding."""
+        def polynomial_at(x):
+            # An iterate may overstep the end of the interval that holds the
+            # phase: continue the prediction from the nearest covered instant.
+            t = guess + x * u.s
+            t0 = min(max(t, lo), hi)
+            pol, ref = self.phasepol(t0)
+            return pol, ref, (t - t0).to_value(u.s)
+
         def func(x):
-            return (self(guess + x * u.s) - phase).value
+            pol, ref, dx = polynomial_at(x)
+            return (ref + pol(dx) * u.cycle - phase).value
 
         def fprime(x):
-            return self.f0(guess + x * u.s).to_value(u.cycle / u.s)
+            pol, _, dx = polynomial_at(x)
+            return pol.deriv()(dx)
 
-        check = ((self(a) < phase) & (phase < self(b)) for a, b in self.intervals)
-        check = functools.reduce(operator.or_, check)
+        check = [(self(a) < phase) & (phase < self(b)) for a, b in self.intervals]
 
-        if not np.all(check):
+        if not np.all(functools.reduce(operator.or_, check)):
             raise ValueError("Given phase seems to be outside predictor range!")
+
+        lo, hi = self.intervals[int(np.argmax(check))]
 
         if guess is None:
             ph_end = (self(self["tmid"] + self["span"] / 2) - phase).value
